@@ -6,6 +6,7 @@ cd "$HERE"
 mkdir -p work coq/Gen evidence
 export PYTHONDONTWRITEBYTECODE=1
 /venv/bin/python tools/py2v/gen.py "${HIVE_REPO:-/repo}" coq/Gen || true
+/venv/bin/python tools/py2v/inventory.py "${HIVE_REPO:-/repo}" coq/Gen || true
 cd coq
 FILES=$(ls Base/*.v Gen/*.v Model/*.v Proofs/*.v Props/*.v 2>/dev/null)
 coq_makefile -f _CoqProject $FILES -o Makefile
